@@ -316,3 +316,71 @@ def _m18():
     ns = {'__name__': 'bfg9000.backends.msbuild.solution', '__package__': 'bfg9000.backends.msbuild'}
     exec(compile(src, msol.__file__, 'exec'), ns)
     msol.Solution.write = ns['Solution'].write
+
+
+def _depfixer_variant(old, new):
+    from bfg9000 import depfixer
+    src = open(depfixer.__file__).read()
+    assert old in src
+    src = src.replace(old, new)
+    ns = {'__name__': 'bfg9000.depfixer', '__package__': 'bfg9000'}
+    exec(compile(src, depfixer.__file__, 'exec'), ns)
+    # keep the exception classes of the live module so that harness `except` clauses still match
+    for name in ('tokenize', 'emit_deps'):
+        fn = ns[name]
+        fn.__globals__['ParseError'] = depfixer.ParseError
+        fn.__globals__['UnexpectedTokenError'] = depfixer.UnexpectedTokenError
+        setattr(depfixer, name, fn)
+
+
+@mutant('depfixer_drop_escape')
+def _m19():
+    # the character after a backslash is emitted without its backslash
+    _depfixer_variant("                yield (Token.char, '\\\\')\n                if c is None:",
+                      "                if c is None:")
+
+
+@mutant('depfixer_no_final_newline_rule')
+def _m20():
+    # a dependency directly followed by the newline is not terminated with ':'
+    _depfixer_variant("""            elif tok == Token.newline:
+                outstream.write(':\\n')
+                state = State.target""", """            elif tok == Token.newline:
+                outstream.write('\\n')
+                state = State.target""")
+
+
+@mutant('depfixer_colon_anywhere')
+def _m21():
+    # every ':' is a separator, also inside a word (C:/x style names)
+    _depfixer_variant("""            if c is None or c in ' \\t\\n':""", """            if True:""")
+
+
+@mutant('make_rule_registers_last_only')
+def _m22():
+    # only the last target of a multi-target rule is remembered for duplicate detection
+    from bfg9000.backends.make import syntax as ms
+    from bfg9000 import iterutils
+
+    def rule(self, target, deps=None, order_only=None, recipe=None, variables=None, phony=False):
+        targets = iterutils.listify(target)
+        if len(targets) == 0:
+            raise ValueError('must have at least one target')
+        for i in targets:
+            target = self._target_str(i)
+            if self.has_rule(target):
+                raise ValueError('rule for {!r} already exists'.format(target))
+        self._targets.add(target)
+        self._rules.append(ms.Rule(targets, iterutils.listify(deps), iterutils.listify(order_only),
+                                   recipe, {}, phony))
+    ms.Makefile.rule = rule
+
+
+@mutant('ninja_build_str_only')
+def _m23():
+    # duplicate detection keyed on the object instead of its written form: 'a' and Path('a') differ
+    from bfg9000.backends.ninja import syntax as ns
+
+    def _output_str(self, name):
+        return name if isinstance(name, str) else ('P', id(name))
+    ns.NinjaFile._output_str = _output_str
